@@ -6,15 +6,45 @@
 (* residual share recomputed from super scores and block loadings), the running total explained variance and its      *)
 (* identity with the share-weighted block variances, total variances non-increasing and summing to at most 100.       *)
 (* Units as in LedgerArith (1e-9 fractions, 1e-12 algebraic residuals).                                                *)
-(* Section Model: (M) an ideal CPCA over small integer block budgets; the ledger must accept every ideal run and      *)
-(* reject the injected faults.                                                                                         *)
+(*                                                                                                                     *)
+(* Clause table of property C09 (statement -> operator that decides it -> event / field that carries it):             *)
+(*  1 super score k = +-PCA score k of the identically preprocessed, sqrt(width)-scaled concatenation                 *)
+(*        PropTruth (dist <= bT[k], oracle)  <- Truth.dist;   PropPcaRef (library PCA, looser bound) <- PcaRef.dist   *)
+(*  2 total explained variance of component k = that PCA's explained variance                                         *)
+(*        PropTruth (tvErr <= EvTolC9, oracle lambda_k / trace) <- Truth.tvErr;  PropPcaRef (TolEig) <- PcaRef.varexp *)
+(*  3 super score = block scores x super weights            PropSuper  <- Cpca.superErr                               *)
+(*  4 block explained variances are cumulative              PropBlockVar (|blockVar - blockRef| <= BlockTol, blockRef  *)
+(*        recomputed by the harness from the stored super scores and block loadings) <- Cpca.blockVar, Cpca.blockRef   *)
+(*        PropTruthBlocks (share of the block inside the span of the first k ORACLE scores, independent of the model's  *)
+(*        scores and loadings, tolerance 4 x the summed score bounds) <- Truth.blockTruth against the ledger's prevBlock *)
+(*  5 ... within [0,100]                                    PropBlockVar <- Cpca.blockVar                             *)
+(*  6 ... non-decreasing in k                               PropBlockVar with the ledger state prevBlock               *)
+(*  7 projecting the training tensor reproduces the super scores                                                      *)
+(*        PropProj (output shapes, also into outputs already sized) <- Proj;  PropReproj <- Cpca.reproj               *)
+(*        PropProj2 (asking for fewer components returns the leading ones) <- Proj2                                   *)
+(*  consequences the ledger adds: PropTotal (totals >= 0, non-increasing, sum <= 100), PropShare (running total =     *)
+(*  share-weighted block variances), PropScale (the statement does not depend on the unit of the data),               *)
+(*  PropAgain (nor on what the process fitted before).                                                                 *)
+(*  Implementation-shaped layer (SPEC-DRIFT only): ImplCpca (super weights normalised, predicted block scores =        *)
+(*  stored block scores), ImplMt / ImplSlices (the threaded kernel is used and cuts a length as KernelSlices),         *)
+(*  ImplIters (NIPALS passes are observed), ImplAgain (a repeated fit is bitwise the same).                            *)
+(*                                                                                                                     *)
+(* Section Model: (M) an ideal CPCA over small integer block budgets, blocks with constant variables (budget below     *)
+(* the width) and zero blocks included; the ledger must accept every ideal run and reject the injected faults.         *)
 EXTENDS LedgerArith, FiniteSets, TLC
 
-CONSTANTS NBlocks,      \* model: number of blocks
-          Quanta,       \* model: variance quanta per block (divides 10^9)
+CONSTANTS Bud,          \* model: live variance quanta per block (a block of width Quanta with c constant variables has Quanta - c)
+          Quanta,       \* model: variance quanta of a block without constant variables (its width); divides 10^9
           MaxPc,        \* model: components
-          CFault        \* model: "none" | "not_cumulative" | "over_100" | "total_unrelated"
+          CFault        \* model: "none" | "not_cumulative" | "over_100" | "total_unrelated" | "trace_by_width"
 
+NBlocks == Len(Bud)
+(* budgets the .cfg files substitute for Bud (a .cfg cannot spell a tuple) *)
+BudConst == <<4, 5>>            \* two blocks of width 5, a constant variable in the first
+BudZero == <<4, 0, 2>>          \* a constant block between two live ones (width 4)
+BudThree == <<3, 4, 4>>
+BudFour == <<5, 0, 4, 2>>
+BudTrace == <<5, 5>>            \* trace / generator configurations (the model part is not used there)
 KKc == 30                 \* same constant as C02
 CpcaFloor9 == 100         \* 1e-7: below this a comparison against an independent double-precision oracle is not meaningful
 BlockTol == 10            \* 1e-8: library's block variance vs the one recomputed from the model
@@ -26,29 +56,54 @@ RECURSIVE WSum(_, _, _)
 WSum(share, bv, b) == IF b = 0 THEN 0 ELSE WSum(share, bv, b - 1) + MulDiv(share[b], Max2(0, Min2(bv[b], One)), One)
 ShareTol(k) == 30 + 10 * k
 
+(* the quantifier of C09 plus the class coordinates of INPUT-CLASSES.md the generator may set (all inside the quantifier) *)
 PropFitC(ev) == /\ ev.blocks \in 2..4 /\ Len(ev.widths) = ev.blocks /\ ev.n \in 5..30 /\ ev.scaling \in 0..5
                 /\ \A b \in 1..ev.blocks : ev.widths[b] \in 1..8 /\ ev.npc <= ev.widths[b]
-                /\ ev.npc >= 1
-PropBlockVar(nb, prev, ev) ==
+                /\ ev.npc >= 1 /\ ev.npc <= ev.n - 1
+                /\ ev.nproc \in 1..32
+                /\ ev.cc \in 0..7 /\ ev.off \in 0..8 /\ ev.hist \in 0..1 /\ ev.sized \in 0..3 /\ ev.deg \in 0..3
+                /\ Len(ev.bm) = ev.blocks
+                /\ \A b \in 1..ev.blocks :
+                     IF ev.scaling = 0 THEN ev.dec + ev.bm[b] \in -9..9 /\ ev.dec + ev.bm[b] + ev.off <= 13
+                     ELSE ev.dec + ev.bm[b] \in 0..9 /\ ev.dec + ev.bm[b] + ev.off <= 13     \* below 1 the zero-scale guard of MatrixPreprocess decides (C10)
+                /\ (ev.cc \in 1..6 \/ ev.deg = 2 => \E b \in 1..ev.blocks : ev.widths[b] >= 2)   \* a constant / duplicated variable lives in a block of width >= 2
+PropBlockVar(nb, prev, nzb, ev) ==
   /\ Len(ev.blockVar) = nb /\ Len(ev.blockRef) = nb
   /\ \A b \in 1..nb : /\ ev.blockVar[b] >= -3 /\ ev.blockVar[b] <= One + 3               \* within [0, 100]
                       /\ ev.blockVar[b] >= prev[b] - 3                                    \* non-decreasing
-                      /\ Abs(ev.blockVar[b] - ev.blockRef[b]) <= BlockTol                 \* cumulative: 1 - |E_b^(k)|^2 / |E_b|^2
+                      /\ (nzb[b] = 1 => Abs(ev.blockVar[b] - ev.blockRef[b]) <= BlockTol) \* cumulative: 1 - |E_b^(k)|^2 / |E_b|^2 (undefined for a zero block)
 PropSuper(ev) == ev.superErr <= TolAlg                                                   \* super score = block scores x super weights
 PropTotal(lastTotal, sumTotal, ev) == /\ ev.totalVar >= 0
                                       /\ ev.totalVar <= lastTotal + 3
                                       /\ sumTotal + ev.totalVar <= One + 3
 PropShare(nb, share, sumTotal, ev) == Abs((sumTotal + ev.totalVar) - WSum(share, ev.blockVar, nb)) <= ShareTol(ev.k)
-PropCpca(nb, prev, share, lastTotal, sumTotal, ev) ==
-  PropBlockVar(nb, prev, ev) /\ PropSuper(ev) /\ PropTotal(lastTotal, sumTotal, ev) /\ PropShare(nb, share, sumTotal, ev)
-ImplCpca(ev) == ev.wnorm <= TolAlg                                                       \* the code keeps the super weights normalised
+PropCpca(nb, prev, nzb, share, lastTotal, sumTotal, ev) ==
+  PropBlockVar(nb, prev, nzb, ev) /\ PropSuper(ev) /\ PropTotal(lastTotal, sumTotal, ev) /\ PropShare(nb, share, sumTotal, ev)
 
 EvTolC9(nn, s2k, entries) == 4 * EpsCpca9(nn) + (entries + 1) * (One \div s2k) + CpcaFloor9
 PropTruth(nn, sig, ncmp, bT, ev) == ev.k <= ncmp => (ev.dist <= bT[ev.k] /\ ev.tvErr <= EvTolC9(nn, sig[ev.k], Len(sig)))
+RECURSIVE SumTo(_, _)
+SumTo(b, k) == IF k = 0 THEN 0 ELSE SatAdd(SumTo(b, k - 1), b[k])
+(* the cumulative block variance is the share of block b's sum of squares inside the span of the first k scores; a score off by delta moves it *)
+(* by at most 2 delta, over k components by at most 2 * (delta_1 + .. + delta_k)                                                              *)
+BlockTruthTol(bT, k) == SatAdd(4 * Min2(SumTo(bT, k), 200000000), BlockTol)
+PropTruthBlocks(nb, nzb, bv, ncmp, bT, ev) ==
+  ev.k <= ncmp => /\ Len(ev.blockTruth) = nb
+                  /\ \A b \in 1..nb : nzb[b] = 1 => Abs(bv[b] - ev.blockTruth[b]) <= BlockTruthTol(bT, ev.k)
 PropReproj(ncmp, bT, ev) == ev.k <= ncmp => ev.reproj <= bT[ev.k]
+ImplCpca(ncmp, bT, ev) == /\ ev.wnorm <= TolAlg                                          \* the code keeps the super weights normalised
+                          /\ (ev.k <= ncmp => ev.reprojB <= bT[ev.k])                    \* and the projection also reproduces the block scores
 PropPcaRef(nn, ncmp, bTc, bTp, curTotal, ev) ==
   ev.k <= ncmp => /\ ev.dist <= SatAdd(bTc[ev.k], bTp[ev.k])
                   /\ Abs(ev.varexp - curTotal) <= TolEig(nn, ev.varexp)
+(* CPCAScorePredictor leaves n x npc super scores and one n x blocks layer of block scores per component, whatever the output held before *)
+PropProj(nn, npc, nb, ev) == ev.rows = nn /\ ev.cols = npc
+ImplProj(nn, npc, nb, ev) == ev.order = npc /\ ev.brows = nn /\ ev.bcols = nb
+(* asking for fewer components returns the leading ones; asking for more than the model holds returns what it holds (that clamp is the code's choice) *)
+PropProj2(nn, npc, ncmp, bT, ev) == /\ ev.req >= 1 /\ ev.rows = nn
+                                    /\ (ev.req <= npc => ev.cols = ev.req /\ Len(ev.err) = ev.req)
+                                    /\ \A i \in 1..Min2(Len(ev.err), ncmp) : ev.err[i] <= bT[i]
+ImplProj2(npc, ev) == ev.req > npc => ev.cols = npc /\ Len(ev.err) = npc
 
 (* magnitude equivariance (scaling 0): CPCA(c X) against CPCA(X) for c a power of two.  Both runs are within the criterion-implied bound *)
 (* of the same truth (super scores), explained variances do not depend on the unit of the data                                        *)
@@ -57,42 +112,84 @@ PropScale(nn, sig, ncmp, bT, ev) ==
   /\ \A i \in 1..Min2(ncmp, Len(ev.terr)) : /\ ev.terr[i] <= 2 * bT[i]
                                             /\ ev.verr[i] <= 2 * EvTolC9(nn, sig[i], Len(sig))
                                             /\ ev.berr[i] <= SatAdd(4 * Min2(bT[i], 200000000), BlockTol)
+(* history independence: the same data fitted again in the same process after other fits; both fits are within the bound of the same truth *)
+PropAgain(nn, sig, ncmp, bT, ev) ==
+  /\ Len(ev.terr) = Len(ev.verr)
+  /\ \A i \in 1..Min2(ncmp, Len(ev.terr)) : ev.terr[i] <= 2 * bT[i] /\ ev.verr[i] <= 2 * EvTolC9(nn, sig[i], Len(sig))
+ImplAgain(ev) == ev.bit = 1
+
+(* ------------------------------------------------------------------------------------------ the threaded kernel (K6) *)
+(* MT_MatrixDVectorDotProduct cuts a result of length len for np workers: step = ceil(len/np); worker 1 gets [0, step), every following *)
+(* worker starts where the previous one ended and ends step further, clipped at len (matrix.c).  CPCA hands it the lengths width_b        *)
+(* (block loadings), n (block scores, super score) and blocks (super weights).                                                           *)
+CeilDivC(a, b) == (a + b - 1) \div b
+RECURSIVE SliceRec(_, _, _, _, _)
+SliceRec(w, from, to, step, len) == IF w = 0 THEN <<>>
+                                    ELSE <<<<from, to>>>> \o SliceRec(w - 1, to, IF to + step > len THEN len ELSE to + step, step, len)
+KernelSlices(len, np) == LET step == CeilDivC(len, np) IN SliceRec(np, 0, step, step, len)
+(* every index 0..len-1 belongs to exactly one worker *)
+SliceCover(sl, len) == /\ \A w \in 1..Len(sl) : 0 <= sl[w][1] /\ sl[w][1] <= sl[w][2] /\ sl[w][2] <= len
+                       /\ sl[1][1] = 0 /\ sl[Len(sl)][2] = len
+                       /\ \A w \in 1..(Len(sl) - 1) : sl[w + 1][1] = sl[w][2]
+EmptySlices(len, np) == len < np
+RaggedTail(len, np) == \E w \in 1..np : LET s == KernelSlices(len, np)[w] IN s[2] - s[1] > 0 /\ s[2] - s[1] < CeilDivC(len, np)
+IdleTail(len, np) == len >= np /\ KernelSlices(len, np)[np][1] = KernelSlices(len, np)[np][2]
+ImplMt(nproc, ev) == ev.nproc = nproc /\ (nproc > 1 => ev.calls > 0) /\ (nproc = 1 => ev.calls = 0)
+ImplSlices(nproc, ev) == /\ ev.np = nproc /\ Len(ev.fr) = nproc /\ Len(ev.to) = nproc /\ ev.len >= 1
+                         /\ [w \in 1..nproc |-> <<ev.fr[w], ev.to[w]>>] = KernelSlices(ev.len, nproc)
+PropSlices(ev) == Len(ev.fr) = Len(ev.to) /\ Len(ev.fr) >= 1 /\ SliceCover([w \in 1..Len(ev.fr) |-> <<ev.fr[w], ev.to[w]>>], ev.len)
+ImplIters(npc, ev) == Len(ev.its) = npc /\ \A i \in 1..npc : ev.its[i] >= 1
 
 (* ------------------------------------------------------------------------------------------ Model (M) *)
 VARIABLES cn, nb, cnpc, ck, prevBlock, share, lastTotal, sumTotal, curTotal, cphase,   \* ledger state
+          nz,                                                                          \* block b has a positive sum of squares
           left, cok                                                                    \* model only
-cvars == <<cn, nb, cnpc, ck, prevBlock, share, lastTotal, sumTotal, curTotal, cphase, left, cok>>
-UnitQ == One \div Quanta
-EqualShare == [b \in 1..NBlocks |-> One \div NBlocks]
+cvars == <<cn, nb, cnpc, ck, prevBlock, share, lastTotal, sumTotal, curTotal, cphase, nz, left, cok>>
+RECURSIVE SumSeq(_, _)
+SumSeq(s, b) == IF b = 0 THEN 0 ELSE SumSeq(s, b - 1) + s[b]
+BudTotal == SumSeq(Bud, NBlocks)
+UnitB(b) == IF Bud[b] = 0 THEN 0 ELSE One \div Bud[b]                 \* one quantum of block b as a fraction of the block's own sum of squares
+UnitW == One \div Quanta                                               \* ... of a sum of squares derived from the width (fault trace_by_width)
+UnitT == One \div BudTotal                                             \* ... of the total (every variable of the block-scaled concatenation has weight 1/width)
+TrueShare == [b \in 1..NBlocks |-> Bud[b] * UnitT]
+NzOf == [b \in 1..NBlocks |-> IF Bud[b] > 0 THEN 1 ELSE 0]
+ModelSig == <<One, One \div 2, One \div 8, One \div 64>>              \* a separated spectrum so that PropTruth judges every model component
 
-CInit == /\ cn = 5 /\ nb = NBlocks /\ cnpc = 0 /\ ck = 0 /\ prevBlock = [b \in 1..NBlocks |-> 0] /\ share = EqualShare
-         /\ lastTotal = One /\ sumTotal = 0 /\ curTotal = 0 /\ cphase = "Idle" /\ left = [b \in 1..NBlocks |-> Quanta] /\ cok = TRUE
+CInit == /\ cn = 5 /\ nb = NBlocks /\ cnpc = 0 /\ ck = 0 /\ prevBlock = [b \in 1..NBlocks |-> 0] /\ share = TrueShare
+         /\ lastTotal = One /\ sumTotal = 0 /\ curTotal = 0 /\ cphase = "Idle" /\ nz = NzOf /\ left = Bud /\ cok = TRUE
 
 CMFit == /\ cphase = "Idle" /\ \E np \in 1..MaxPc : cnpc' = np
          /\ ck' = 0 /\ prevBlock' = [b \in 1..NBlocks |-> 0] /\ lastTotal' = One /\ sumTotal' = 0 /\ curTotal' = 0
-         /\ left' = [b \in 1..NBlocks |-> Quanta] /\ cphase' = "Fit" /\ UNCHANGED <<cn, nb, share, cok>>
+         /\ left' = Bud /\ cphase' = "Fit" /\ UNCHANGED <<cn, nb, share, nz, cok>>
 
 CMExtract ==
   /\ cphase = "Fit" /\ ck < cnpc
   /\ \E r \in [1..NBlocks -> 0..Quanta] :
        /\ \A b \in 1..NBlocks : r[b] <= left[b]
        /\ \E b \in 1..NBlocks : r[b] > 0
-       /\ LET removed == [b \in 1..NBlocks |-> Quanta - left[b] + r[b]]
-              cum     == [b \in 1..NBlocks |-> removed[b] * UnitQ]
-              inc     == [b \in 1..NBlocks |-> r[b] * UnitQ]
-              total   == WSum(share, inc, NBlocks)
+       /\ LET removed == [b \in 1..NBlocks |-> Bud[b] - left[b] + r[b]]
+              cum     == [b \in 1..NBlocks |-> removed[b] * UnitB(b)]
+              inc     == [b \in 1..NBlocks |-> r[b] * UnitB(b)]
+              total   == SumSeq(r, NBlocks) * UnitT
+              cumW    == [b \in 1..NBlocks |-> removed[b] * UnitW]                       \* fault: block trace taken as (n-1)*width
+              totalW  == SumSeq(r, NBlocks) * (One \div (NBlocks * Quanta))              \* fault: total sum of squares derived from it
               bv      == IF CFault = "not_cumulative" THEN inc
-                         ELSE IF CFault = "over_100" THEN [b \in 1..NBlocks |-> cum[b] + One \div 2] ELSE cum
-              tv      == IF CFault = "total_unrelated" THEN total \div 2 ELSE total
-              ev      == [k |-> ck + 1, totalVar |-> tv, blockVar |-> bv, blockRef |-> cum, superErr |-> 0, wnorm |-> 0, reproj |-> 0]
+                         ELSE IF CFault = "over_100" THEN [b \in 1..NBlocks |-> cum[b] + One \div 2]
+                         ELSE IF CFault = "trace_by_width" THEN cumW ELSE cum
+              tv      == IF CFault = "total_unrelated" THEN total \div 2 ELSE IF CFault = "trace_by_width" THEN totalW ELSE total
+              ev      == [k |-> ck + 1, totalVar |-> tv, blockVar |-> bv, blockRef |-> cum, superErr |-> 0, wnorm |-> 0, reproj |-> 0, reprojB |-> 0]
+              tvErr   == IF total = 0 THEN One ELSE MulDiv(Abs(tv - total), One, total)
+              tr      == [k |-> ck + 1, dist |-> 0, tvErr |-> tvErr, blockTruth |-> cum]
+              bT      == [i \in 1..4 |-> CpcaFloor9]
           IN /\ total <= lastTotal                       \* an ideal CPCA extracts components in order of total variance
-             /\ cok' = (cok /\ PropCpca(NBlocks, prevBlock, share, lastTotal, sumTotal, ev))
+             /\ cok' = (cok /\ PropCpca(NBlocks, prevBlock, nz, share, lastTotal, sumTotal, ev) /\ PropTruth(cn, ModelSig, 4, bT, tr)
+                                 /\ PropTruthBlocks(NBlocks, nz, bv, 4, bT, tr))
              /\ prevBlock' = bv /\ lastTotal' = tv /\ sumTotal' = sumTotal + tv /\ curTotal' = tv
        /\ left' = [b \in 1..NBlocks |-> left[b] - r[b]]
-  /\ ck' = ck + 1 /\ UNCHANGED <<cn, nb, cnpc, share, cphase>>
+  /\ ck' = ck + 1 /\ UNCHANGED <<cn, nb, cnpc, share, cphase, nz>>
 
 CMDone == /\ cphase = "Fit" /\ ck = cnpc /\ cphase' = "Idle"
-          /\ UNCHANGED <<cn, nb, cnpc, ck, prevBlock, share, lastTotal, sumTotal, curTotal, left, cok>>
+          /\ UNCHANGED <<cn, nb, cnpc, ck, prevBlock, share, lastTotal, sumTotal, curTotal, nz, left, cok>>
 CNext == CMFit \/ CMExtract \/ CMDone
 CSpec == CInit /\ [][CNext]_cvars
 
@@ -100,4 +197,13 @@ CLedgerAccepts == cok
 BlockWithin == cok => \A b \in 1..NBlocks : prevBlock[b] >= 0 /\ prevBlock[b] <= One
 TotalWithin == cok => sumTotal <= One + 3
 TotalIsWeightedBlocks == cok => Abs(sumTotal - WSum(share, prevBlock, NBlocks)) <= ShareTol(ck)
+ZeroBlockStaysZero == cok => \A b \in 1..NBlocks : nz[b] = 0 => prevBlock[b] = 0
+(* everything extracted <=> every live block fully explained <=> the totals sum to 100 % *)
+ExhaustedIsAll == (cok /\ CFault = "none" /\ \A b \in 1..NBlocks : left[b] = 0 /\ ck > 0)
+                    => /\ Abs(sumTotal - One) <= NBlocks * Quanta + 3
+                       /\ \A b \in 1..NBlocks : nz[b] = 1 => Abs(prevBlock[b] - One) <= Quanta
+(* the slicing of the threaded kernel for every length CPCA hands it within the quantifier and every processor count the check forces *)
+SlicesSound == \A len \in 1..30 : \A np \in {2, 3, 5, 16, 24} :
+                 /\ Len(KernelSlices(len, np)) = np /\ SliceCover(KernelSlices(len, np), len)
+                 /\ (EmptySlices(len, np) => KernelSlices(len, np)[np] = <<len, len>>)
 ====
